@@ -113,6 +113,32 @@ def gen(chk):
                 i = "m%d" % next(cid)
                 streams["spend"].append("spend id=%s tx=%s txin=%s flags=%d pv=%s cmds=c" % (i, hx(c["spend"]), hx(c["fund"]), STD, hx("0xdead:0xbeef")))
                 meta[i] = ("spend-unrelated", c)
+    # ... and the mocked pair IS the broken signature with its key: every spend type must then succeed, the taproot key path included
+    def items(script_hex):
+        b = bytes.fromhex(script_hex); out = []; i = 0
+        while i < len(b):
+            n = b[i]; i += 1
+            if 1 <= n <= 75: out.append(b[i:i + n]); i += n
+            elif n == 0x4c: n = b[i]; out.append(b[i + 1:i + 1 + n]); i += 1 + n
+            else: out.append(None)
+        return out
+    for k in ["p2pk", "p2pkh", "p2wpkh", "p2tr-key", "p2tr-script"]:
+        for mut in ("wrongkey", "sigbyte"):
+            for _ in range(2 if q else 10):
+                c = S.build(rng, k, mutate=mut, ht=(1 if not k.startswith("p2tr") else rng.choice([0, 1])))
+                if c["valid"]: continue
+                wit = [bytes.fromhex(w) for w in c["wit"]]
+                if k == "p2pk": sig, key = items(c["scriptsig"])[0], items(c["spk"])[0]
+                elif k == "p2pkh": sig, key = items(c["scriptsig"])[:2]
+                elif k == "p2wpkh": sig, key = wit[0], wit[1]
+                elif k == "p2tr-key": sig, key = wit[0], bytes.fromhex(c["spk"])[2:]
+                else:
+                    cands = [x for x in items(wit[-2].hex()) if x is not None and len(x) == 32]
+                    sig, key = wit[0], (cands[0] if cands else None)
+                if not sig or not key: continue
+                i = "l%d" % next(cid)
+                streams["spend"].append("spend id=%s tx=%s txin=%s flags=%d pv=%s cmds=c" % (i, hx(c["spend"]), hx(c["fund"]), STD, hx("0x%s:0x%s" % (sig.hex(), key.hex()))))
+                meta[i] = ("spend-listed", c)
     return streams, meta, rel
 
 def main(tier):
@@ -134,6 +160,8 @@ def main(tier):
                 wrong.append((c, il, "a listed signature/key pair was not accepted"))
             if label == "othersig" and head == "pv" and session_ok(il):
                 wrong.append((c, il, "a signature that is not the listed one was accepted for a mocked key without a transaction"))
+            if isinstance(label, tuple) and label[0] == "spend-listed" and head == "pv" and not session_ok(il):
+                wrong.append((c, il, "a spend (%s) whose only defect is the signature is not accepted although exactly that signature/key pair is mocked" % label[1]["kind"]))
             if isinstance(label, tuple) and label[0] == "spend-unrelated":
                 if session_ok(il) != bool(label[1]["valid"]):
                     wrong.append((c, il, "an unrelated mocked pair changed the outcome of a spend"))
